@@ -4,12 +4,16 @@ package metric
 // re-aggregating / dropping / wildcard views, two ManualReaders with their own temporality, all instrument kinds.
 // Public API only.
 //   hist <gen> <limit> <tps> <insts> <views> | m j set x | o j set x | k | c r … => <r>@<metric>;<metric> …
-// limit: "-" (unset) or the text of the environment variable; tps: one of d|c per reader;
-// insts: comma list <i|f><kind>[:<scope><name><desc><unit>], kind c,u,h,g (sync) C,U,G (observable); without the suffix
+// limit: "-" (unset), x<hex> (these bytes, possibly none) or the text of the environment variable;
+// tps: one of d|c per reader, optionally followed by + (every reader collects into its OWN ResourceMetrics value that
+//   is reused for all its collections) or * (ALL readers collect into ONE reused ResourceMetrics value);
+// insts: comma list <i|f|I|F><kind>[:<scope><name><desc><unit>], kind c,u,h,g (sync) C,U,G (observable); I / F = int64 /
+//   float64 instrument that is created LATER, by the operation "n j"; without the suffix
 //   instrument j is named "i<j>" and created by meter 0 ("c12"); with it (four digits) it is named "i<name>", has
 //   description "d<desc>" / unit "u<unit>" (0 = none) and is created by meter <scope>: 0 = c12, 1 = lib1/v1/s1,
-//   2 = lib1/v2/s1, 3 = lib2/v1/s2 (name/version/schema URL);
-// views: "-" or comma list pat/kind/rename/filter/agg[/crit]: pat - | n<j> | s ("*") | q ("i?"); kind - | kind char;
+//   2 = lib1/v2/s1, 3 = lib2/v1/s2 (name/version/schema URL), 4 / 5 = lib1/v1/s1 with scope attributes {k=1} / {k=2};
+// views: "-" or comma list pat/kind/rename/filter/agg[/crit]: pat - | n<j> | s ("*") | q ("i?") | g<runes> (any
+//   criterion string, decimal code points joined by _); kind - | kind char;
 //   crit - | letters D U N V S each followed by one digit: description, unit, scope name (1 c12, 2 lib1, 3 lib2),
 //   scope version (1 v1, 2 v2), scope schema URL (1 s1, 2 s2);
 //   rename - | r<k> | R<k>; filter - | a<key digits> (allow list) | d<key digits> (deny list);
@@ -17,7 +21,10 @@ package metric
 // set: "e" (empty) or k:v.k:v sorted by key id; key ids 1..4 = "a".."d", 9 = "otel.metric.overflow";
 //   value code 0/1 = Bool false/true, n+2 = Int64 n.
 // ops: m = synchronous measurement, o = observation replayed by the instrument's callback at every collection
-//   until k clears the observations, c r = Collect on reader r.
+//   until k clears the observations, c r = Collect on reader r, n j = create the late instrument j now.
+// Argument slices are never trusted to the SDK: every second measurement passes its attributes as a slice with spare
+// capacity (WithAttributes) that is overwritten right after the call; filter key lists and histogram boundaries of
+// views are overwritten after NewAllowKeysFilter / NewDenyKeysFilter / NewView returned.
 // metric: <name>[#<scope>]~<type>~<set>=<val>+… ; scopes sorted by id, metrics of a scope in reported order, points
 //   sorted by the canonical set text.
 // float64 instruments are driven with x/256 and print value*256.
@@ -27,6 +34,7 @@ import (
 	"fmt"
 	"math"
 	"os"
+	"regexp"
 	"sort"
 	"strconv"
 	"strings"
@@ -165,7 +173,46 @@ func c12Metric[N int64 | float64](d metricdata.Aggregation, n string) (string, [
 
 type c12View struct{ pat, kind, rename, filter, agg, crit string }
 
-var c12ScopeAttrs = [][3]int{{1, 0, 0}, {2, 1, 1}, {2, 2, 1}, {3, 1, 2}}
+var c12ScopeAttrs = [][3]int{{1, 0, 0}, {2, 1, 1}, {2, 2, 1}, {3, 1, 2}, {2, 1, 1}, {2, 1, 1}}
+var c12ScopeKV = []int{0, 0, 0, 0, 1, 2} // instrumentation-scope attribute k (0 = no attributes)
+
+// c12Runes: "105_42" -> "i*"
+func c12Runes(s string) string {
+	if s == "-" || s == "" {
+		return ""
+	}
+	var rs []rune
+	for _, p := range strings.Split(s, "_") {
+		n, _ := strconv.Atoi(p)
+		rs = append(rs, rune(n))
+	}
+	return string(rs)
+}
+
+func c12RuneText(s string) string {
+	if s == "" {
+		return "-"
+	}
+	var ps []string
+	for _, r := range s {
+		ps = append(ps, strconv.Itoa(int(r)))
+	}
+	return strings.Join(ps, "_")
+}
+
+// c12Scribble overwrites a slice and its spare capacity
+func c12Scribble[T any](xs []T, v T) {
+	xs = xs[:cap(xs)]
+	for i := range xs {
+		xs[i] = v
+	}
+}
+
+// c12SpareKVs copies the set into a slice with spare capacity
+func c12SpareKVs(set attribute.Set) []attribute.KeyValue {
+	kvs := make([]attribute.KeyValue, 0, set.Len()+3)
+	return append(kvs, set.ToSlice()...)
+}
 var c12ScopeNames = []string{"", "c12", "lib1", "lib2"}
 var c12Versions = []string{"", "v1", "v2"}
 var c12Schemas = []string{"", "s1", "s2"}
@@ -192,7 +239,7 @@ type c12InstSpec struct {
 }
 
 func c12ParseInst(tok string, j int) c12InstSpec {
-	is := c12InstSpec{float: tok[0] == 'f', kind: tok[1], name: j}
+	is := c12InstSpec{float: tok[0] == 'f' || tok[0] == 'F', kind: tok[1], name: j}
 	if len(tok) >= 7 && tok[2] == ':' {
 		is.scope, is.name, is.desc, is.unit = int(tok[3]-'0'), int(tok[4]-'0'), int(tok[5]-'0'), int(tok[6]-'0')
 	}
@@ -268,6 +315,20 @@ func (v c12View) matches(is c12InstSpec) bool {
 	if v.pat[0] == 'n' && v.pat != "n"+strconv.Itoa(j) {
 		return false
 	}
+	if v.pat[0] == 'g' { // generator side only (keeps aggregations compatible)
+		g := c12Runes(v.pat[1:])
+		if strings.ContainsAny(g, "*?") {
+			if v.rename != "-" {
+				return false
+			}
+			q := strings.ReplaceAll(strings.ReplaceAll(regexp.QuoteMeta(g), `\?`, "."), `\*`, ".*")
+			if ok, _ := regexp.MatchString("^"+q+"$", "i"+strconv.Itoa(j)); !ok {
+				return false
+			}
+		} else if g != "i"+strconv.Itoa(j) {
+			return false
+		}
+	}
 	if v.kind != "-" && v.kind[0] != k {
 		return false
 	}
@@ -283,6 +344,8 @@ func (v c12View) build() View {
 		crit.Name = "i?"
 	case v.pat[0] == 'n':
 		crit.Name = "i" + v.pat[1:]
+	case v.pat[0] == 'g':
+		crit.Name = c12Runes(v.pat[1:])
 	}
 	if v.kind != "-" {
 		crit.Kind = c12KindOf(v.kind[0])
@@ -298,7 +361,7 @@ func (v c12View) build() View {
 		mask.Name = v.rename
 	}
 	if v.filter != "-" {
-		var keys []attribute.Key
+		keys := make([]attribute.Key, 0, len(v.filter)+2)
 		for _, ch := range v.filter[1:] {
 			keys = append(keys, attribute.Key(c12Keys[int(ch-'0')]))
 		}
@@ -307,7 +370,9 @@ func (v c12View) build() View {
 		} else {
 			mask.AttributeFilter = attribute.NewDenyKeysFilter(keys...)
 		}
+		c12Scribble(keys, attribute.Key("a")) // the caller reuses its slice
 	}
+	var bounds []float64
 	switch v.agg {
 	case "D":
 		mask.Aggregation = AggregationDefault{}
@@ -318,11 +383,14 @@ func (v c12View) build() View {
 	case "l":
 		mask.Aggregation = AggregationLastValue{}
 	case "e":
-		mask.Aggregation = AggregationExplicitBucketHistogram{Boundaries: []float64{0, 10, 100}}
+		bounds = append(make([]float64, 0, 8), 0, 10, 100)
+		mask.Aggregation = AggregationExplicitBucketHistogram{Boundaries: bounds}
 	case "b":
 		mask.Aggregation = AggregationBase2ExponentialHistogram{MaxSize: 160, MaxScale: 20}
 	}
-	return NewView(crit, mask)
+	view := NewView(crit, mask)
+	c12Scribble(bounds, 7) // the caller reuses its slice
+	return view
 }
 
 type c12Obs struct {
@@ -343,8 +411,15 @@ func TestVerifC12Views(t *testing.T) {
 	run := func(gen, lim, tps, istr, vstr string, ops [][]string) {
 		if lim == "-" {
 			os.Unsetenv(envKey)
+		} else if lim[0] == 'x' {
+			os.Setenv(envKey, vUnhex(lim))
 		} else {
 			os.Setenv(envKey, lim)
+		}
+		tpsTok := tps
+		reuse := byte(0)
+		if n := len(tps); n > 0 && (tps[n-1] == '+' || tps[n-1] == '*') {
+			reuse, tps = tps[n-1], tps[:n-1]
 		}
 		var readers []*ManualReader
 		var opts []Option
@@ -368,16 +443,31 @@ func TestVerifC12Views(t *testing.T) {
 		meters := map[int]metric.Meter{}
 		scopeID := map[string]int{}
 		for sc, sa := range c12ScopeAttrs {
-			meters[sc] = mp.Meter(c12ScopeNames[sa[0]], metric.WithInstrumentationVersion(c12Versions[sa[1]]),
-				metric.WithSchemaURL(c12Schemas[sa[2]]))
-			scopeID[c12ScopeNames[sa[0]]+"|"+c12Versions[sa[1]]+"|"+c12Schemas[sa[2]]] = sc
+			mo := []metric.MeterOption{metric.WithInstrumentationVersion(c12Versions[sa[1]]), metric.WithSchemaURL(c12Schemas[sa[2]])}
+			kvTxt := ""
+			if kv := c12ScopeKV[sc]; kv != 0 {
+				mo = append(mo, metric.WithInstrumentationAttributes(attribute.Int("k", kv)))
+				kvTxt = strconv.Itoa(kv)
+			}
+			meters[sc] = mp.Meter(c12ScopeNames[sa[0]], mo...)
+			scopeID[c12ScopeNames[sa[0]]+"|"+c12Versions[sa[1]]+"|"+c12Schemas[sa[2]]+"|"+kvTxt] = sc
 		}
+		rms := make([]metricdata.ResourceMetrics, len(readers)+1)
 		var cur []c12Obs
 		insts := strings.Split(istr, ",")
-		recs := make([]func(a attribute.Set, v int64), len(insts))
+		recs := make([]func(a metric.MeasurementOption, v int64), len(insts))
 		async := make([]bool, len(insts))
-		for j, ic := range insts {
-			j := j
+		nObs := 0
+		obsOpt := func(set attribute.Set) (metric.MeasurementOption, func()) {
+			nObs++
+			if nObs%2 == 0 {
+				return metric.WithAttributeSet(set), func() {}
+			}
+			kvs := c12SpareKVs(set)
+			return metric.WithAttributes(kvs...), func() { c12Scribble(kvs, attribute.String("scribbled", "x")) }
+		}
+		create := func(j int) {
+			ic := insts[j]
 			spec := c12ParseInst(ic, j)
 			name := fmt.Sprintf("i%d", spec.name)
 			float, kind := spec.float, spec.kind
@@ -392,7 +482,9 @@ func TestVerifC12Views(t *testing.T) {
 			icb := metric.WithInt64Callback(func(_ context.Context, o metric.Int64Observer) error {
 				for _, ob := range cur {
 					if ob.j == j {
-						o.Observe(ob.v, metric.WithAttributeSet(ob.set))
+						opt, after := obsOpt(ob.set)
+						o.Observe(ob.v, opt)
+						after()
 					}
 				}
 				return nil
@@ -400,7 +492,9 @@ func TestVerifC12Views(t *testing.T) {
 			fcb := metric.WithFloat64Callback(func(_ context.Context, o metric.Float64Observer) error {
 				for _, ob := range cur {
 					if ob.j == j {
-						o.Observe(float64(ob.v)/256, metric.WithAttributeSet(ob.set))
+						opt, after := obsOpt(ob.set)
+						o.Observe(float64(ob.v)/256, opt)
+						after()
 					}
 				}
 				return nil
@@ -408,28 +502,28 @@ func TestVerifC12Views(t *testing.T) {
 			switch {
 			case kind == 'c' && !float:
 				c, _ := m.Int64Counter(name, c12Opts[metric.Int64CounterOption](du)...)
-				recs[j] = func(a attribute.Set, v int64) { c.Add(ctx, v, metric.WithAttributeSet(a)) }
+				recs[j] = func(a metric.MeasurementOption, v int64) { c.Add(ctx, v, a) }
 			case kind == 'c':
 				c, _ := m.Float64Counter(name, c12Opts[metric.Float64CounterOption](du)...)
-				recs[j] = func(a attribute.Set, v int64) { c.Add(ctx, float64(v)/256, metric.WithAttributeSet(a)) }
+				recs[j] = func(a metric.MeasurementOption, v int64) { c.Add(ctx, float64(v)/256, a) }
 			case kind == 'u' && !float:
 				c, _ := m.Int64UpDownCounter(name, c12Opts[metric.Int64UpDownCounterOption](du)...)
-				recs[j] = func(a attribute.Set, v int64) { c.Add(ctx, v, metric.WithAttributeSet(a)) }
+				recs[j] = func(a metric.MeasurementOption, v int64) { c.Add(ctx, v, a) }
 			case kind == 'u':
 				c, _ := m.Float64UpDownCounter(name, c12Opts[metric.Float64UpDownCounterOption](du)...)
-				recs[j] = func(a attribute.Set, v int64) { c.Add(ctx, float64(v)/256, metric.WithAttributeSet(a)) }
+				recs[j] = func(a metric.MeasurementOption, v int64) { c.Add(ctx, float64(v)/256, a) }
 			case kind == 'h' && !float:
 				c, _ := m.Int64Histogram(name, c12Opts[metric.Int64HistogramOption](du)...)
-				recs[j] = func(a attribute.Set, v int64) { c.Record(ctx, v, metric.WithAttributeSet(a)) }
+				recs[j] = func(a metric.MeasurementOption, v int64) { c.Record(ctx, v, a) }
 			case kind == 'h':
 				c, _ := m.Float64Histogram(name, c12Opts[metric.Float64HistogramOption](du)...)
-				recs[j] = func(a attribute.Set, v int64) { c.Record(ctx, float64(v)/256, metric.WithAttributeSet(a)) }
+				recs[j] = func(a metric.MeasurementOption, v int64) { c.Record(ctx, float64(v)/256, a) }
 			case kind == 'g' && !float:
 				c, _ := m.Int64Gauge(name, c12Opts[metric.Int64GaugeOption](du)...)
-				recs[j] = func(a attribute.Set, v int64) { c.Record(ctx, v, metric.WithAttributeSet(a)) }
+				recs[j] = func(a metric.MeasurementOption, v int64) { c.Record(ctx, v, a) }
 			case kind == 'g':
 				c, _ := m.Float64Gauge(name, c12Opts[metric.Float64GaugeOption](du)...)
-				recs[j] = func(a attribute.Set, v int64) { c.Record(ctx, float64(v)/256, metric.WithAttributeSet(a)) }
+				recs[j] = func(a metric.MeasurementOption, v int64) { c.Record(ctx, float64(v)/256, a) }
 			case kind == 'C' && !float:
 				async[j] = true
 				_, _ = m.Int64ObservableCounter(name, append(c12Opts[metric.Int64ObservableCounterOption](du), icb)...)
@@ -450,6 +544,14 @@ func TestVerifC12Views(t *testing.T) {
 				_, _ = m.Float64ObservableGauge(name, append(c12Opts[metric.Float64ObservableGaugeOption](du), fcb)...)
 			}
 		}
+		created := make([]bool, len(insts))
+		for j, ic := range insts {
+			if ic[0] == 'I' || ic[0] == 'F' {
+				continue
+			}
+			create(j)
+			created[j] = true
+		}
 		var records []string
 		atoi := func(x string) int { n, _ := strconv.Atoi(x); return n }
 		for _, op := range ops {
@@ -457,7 +559,14 @@ func TestVerifC12Views(t *testing.T) {
 			case "m", "p", "r": // p / r (forced-interleaving leg) are plain measurements when run sequentially
 				v, _ := strconv.ParseInt(op[3], 10, 64)
 				if j := atoi(op[1]); j < len(insts) && recs[j] != nil {
-					recs[j](c12ParseSet(op[2]), v)
+					opt, after := obsOpt(c12ParseSet(op[2]))
+					recs[j](opt, v)
+					after()
+				}
+			case "n":
+				if j := atoi(op[1]); j < len(insts) && !created[j] {
+					create(j)
+					created[j] = true
 				}
 			case "o":
 				v, _ := strconv.ParseInt(op[3], 10, 64)
@@ -471,14 +580,26 @@ func TestVerifC12Views(t *testing.T) {
 				if r >= len(readers) {
 					continue
 				}
-				var rm metricdata.ResourceMetrics
-				err := readers[r].Collect(ctx, &rm)
+				var fresh metricdata.ResourceMetrics
+				rmp := &fresh
+				switch reuse {
+				case '+':
+					rmp = &rms[r]
+				case '*':
+					rmp = &rms[len(readers)]
+				}
+				err := readers[r].Collect(ctx, rmp)
+				rm := *rmp
 				var ms []string
 				if err != nil {
 					ms = append(ms, "err")
 				}
 				sid := func(sm metricdata.ScopeMetrics) int {
-					if id, ok := scopeID[sm.Scope.Name+"|"+sm.Scope.Version+"|"+sm.Scope.SchemaURL]; ok {
+					kvTxt := ""
+					if v, ok := sm.Scope.Attributes.Value("k"); ok {
+						kvTxt = strconv.FormatInt(v.AsInt64(), 10)
+					}
+					if id, ok := scopeID[sm.Scope.Name+"|"+sm.Scope.Version+"|"+sm.Scope.SchemaURL+"|"+kvTxt]; ok {
 						return id
 					}
 					return 9
@@ -510,7 +631,7 @@ func TestVerifC12Views(t *testing.T) {
 		for _, op := range ops {
 			sb.WriteString(" | " + strings.Join(op, " "))
 		}
-		out.Line("hist %s %s %s %s %s%s => %s", gen, lim, tps, istr, vstr, sb.String(), strings.Join(records, " "))
+		out.Line("hist %s %s %s %s %s%s => %s", gen, lim, tpsTok, istr, vstr, sb.String(), strings.Join(records, " "))
 	}
 
 	splitOps := func(toks []string) [][]string {
@@ -586,14 +707,85 @@ func TestVerifC12Views(t *testing.T) {
 		if r.Intn(40) == 0 {
 			lim = []string{"-1", "abc", "4", "40"}[r.Intn(4)]
 		}
-		L, _ := strconv.Atoi(lim)
+		if r.Intn(25) == 0 { // the flag parser: signs, leading zeros, blanks, underscores, prefixes, range, other digits
+			lim = []string{"+2", "+3", "02", "003", vHex(" 2"), vHex("2 "), "1_0", "0x2", "2.0", "2e0", "+", "--2", "+-2",
+				"9223372036854775807", "9223372036854775808", "-9223372036854775808", "00000000000000000002",
+				vHex(""), vHex("\t3"), vHex("\xef\xbc\x92"), "0", "-0", "+0", "+1", "01"}[r.Intn(25)]
+		}
+		L := 0
+		if lim[0] == 'x' {
+			L, _ = strconv.Atoi(vUnhex(lim))
+		} else if lim != "-" {
+			L, _ = strconv.Atoi(lim)
+		}
+		if L > 1000 || L < 0 {
+			L = 0
+		}
 		tps := string([]byte{"dc"[r.Intn(2)], "dc"[r.Intn(2)]})
+		switch r.Intn(4) { // recycled destination
+		case 0:
+			tps += "+"
+		case 1:
+			tps += "*"
+		}
 		ni := 1 + r.Intn(4)
 		var is []string
 		for j := 0; j < ni; j++ {
 			is = append(is, string([]byte{"if"[r.Intn(2)], "cuhgCUGcuh"[r.Intn(10)]}))
 		}
 		var vs []string
+		lateFrom := -1
+		if gen == "ident" {
+			// a base instrument and 2-4 siblings that differ from it in exactly ONE identity component each (meter:
+			// scope name / version / attributes only; instrument: kind, number type, unit, description; rarely none =
+			// an identical duplicate, served from the meter's instrument cache); the tail of the list is created late
+			type id struct {
+				float                         bool
+				kind                          byte
+				scope, name, desc, unit, late int
+			}
+			base := id{float: r.Intn(2) == 0, kind: "cuhgCUG"[r.Intn(7)], scope: []int{1, 1, 4, 2, 0}[r.Intn(5)], name: r.Intn(2),
+				desc: r.Intn(3), unit: r.Intn(3)}
+			ids := []id{base}
+			ni = 3 + r.Intn(3)
+			for len(ids) < ni {
+				x := base
+				switch r.Intn(9) {
+				case 0: // scope attributes only
+					x.scope = map[int]int{1: 4, 4: 5, 5: 1, 2: 1, 0: 1, 3: 1}[base.scope]
+				case 1: // scope version only (lib1/v1 <-> lib1/v2), or another attributed twin
+					x.scope = map[int]int{1: 2, 2: 1, 4: 2, 5: 4, 0: 3, 3: 0}[base.scope]
+				case 2:
+					x.scope = []int{0, 1, 2, 3, 4, 5}[r.Intn(6)]
+				case 3:
+					x.kind = "cuhgCUG"[r.Intn(7)]
+				case 4:
+					x.float = !x.float
+				case 5:
+					x.unit = (x.unit + 1 + r.Intn(2)) % 3
+				case 6:
+					x.desc = (x.desc + 1 + r.Intn(2)) % 3
+				case 7:
+					x.name = 1 - x.name
+				case 8: // identical duplicate
+				}
+				ids = append(ids, x)
+			}
+			is = nil
+			for _, x := range ids {
+				n := "i"
+				if x.float {
+					n = "f"
+				}
+				is = append(is, fmt.Sprintf("%s%c:%d%d%d%d", n, x.kind, x.scope, x.name, x.desc, x.unit))
+			}
+			if r.Intn(3) != 0 {
+				lateFrom = 1 + r.Intn(ni)
+				for j := lateFrom; j < ni; j++ {
+					is[j] = strings.ToUpper(is[j][:1]) + is[j][1:]
+				}
+			}
+		}
 		if gen == "scopes" { // 2-3 meters with overlapping instrument names; descriptions and units vary
 			if ni < 2 {
 				ni = 2 + r.Intn(3)
@@ -639,7 +831,7 @@ func TestVerifC12Views(t *testing.T) {
 		}
 		for k := 0; k < nv; k++ {
 			v := c12View{"-", "-", "-", "-", "-", "-"}
-			if gen == "scopes" && r.Intn(4) != 0 { // criteria taken from an existing instrument, sometimes off by one
+			if (gen == "scopes" || gen == "ident") && r.Intn(4) != 0 { // criteria taken from an existing instrument, sometimes off by one
 				sp := c12ParseInst(is[r.Intn(ni)], 0)
 				sa := c12ScopeAttrs[sp.scope]
 				cr := ""
@@ -672,6 +864,11 @@ func TestVerifC12Views(t *testing.T) {
 				v.pat = "s"
 			case x < 8:
 				v.pat = "q"
+			case x < 9: // any criterion string: wildcards in every position, runes that are special for regexps
+				nm := strconv.Itoa(c12ParseInst(is[r.Intn(ni)], r.Intn(ni)).name)
+				g := []string{"i*", "*" + nm, "?" + nm, "??", "?*", "*?", "i" + nm + "*", "*i*", "i**", "i.", "i[0-9]", "I?", "i+",
+					".*", "i" + nm + "?", "*" + nm + "*", "i\\?", "i|*", "(i?)", "^i?", "i?$", "***", "?", "i" + nm, "i?*?"}[r.Intn(25)]
+				v.pat = "g" + c12RuneText(g)
 			}
 			if r.Intn(4) == 0 {
 				v.kind = string(is[r.Intn(ni)][1])
@@ -679,7 +876,7 @@ func TestVerifC12Views(t *testing.T) {
 					v.kind = string("cuhgCUG"[r.Intn(7)])
 				}
 			}
-			if r.Intn(20) != 0 && (v.pat == "s" || v.pat == "q") {
+			if r.Intn(20) != 0 && (v.pat == "s" || v.pat == "q" || (v.pat[0] == 'g' && strings.ContainsAny(c12Runes(v.pat[1:]), "*?"))) {
 				// wildcard + rename is rejected by NewView: generate it only rarely
 			} else if r.Intn(5) < 2 {
 				v.rename = []string{"r0", "r1", "R0", "R1"}[r.Intn(4)]
@@ -761,15 +958,34 @@ func TestVerifC12Views(t *testing.T) {
 			return strconv.FormatInt(v, 10)
 		}
 		var ops [][]string
+		if lateFrom < 0 || lateFrom > ni {
+			lateFrom = ni
+		}
+		nextLate := lateFrom
+		createSome := func(all bool) {
+			for nextLate < ni && (all || r.Intn(2) == 0) {
+				ops = append(ops, []string{"n", strconv.Itoa(nextLate)})
+				nextLate++
+			}
+		}
 		emit := func(j int, set string) {
+			if j >= nextLate { // not created yet: use a created one instead
+				j = r.Intn(nextLate)
+			}
 			kind := "m"
 			if is[j][1] >= 'A' && is[j][1] <= 'Z' {
 				kind = "o"
 			}
-			ops = append(ops, []string{kind, strconv.Itoa(j), set, val(is[j][0] == 'f')})
+			ops = append(ops, []string{kind, strconv.Itoa(j), set, val(is[j][0] == 'f' || is[j][0] == 'F')})
 		}
 		phases := 1 + r.Intn(4)
+		if lateFrom < ni && phases < 2 {
+			phases = 2
+		}
 		for ph := 0; ph < phases; ph++ {
+			if ph > 0 {
+				createSome(ph == phases-1)
+			}
 			// how many sets of the pool this phase touches: around the L-1 boundary, or anything
 			cnt := 1 + r.Intn(len(pool))
 			if L > 0 && r.Intn(2) == 0 {
@@ -824,6 +1040,7 @@ func TestVerifC12Views(t *testing.T) {
 				ops = append(ops, []string{"k"})
 			}
 		}
+		createSome(true)
 		ops = append(ops, []string{"c", "0"}, []string{"c", "1"})
 		run(gen, lim, tps, strings.Join(is, ","), vstr, ops)
 	}
@@ -832,6 +1049,8 @@ func TestVerifC12Views(t *testing.T) {
 			genCase("ovf-first")
 		} else if i%16 == 3 {
 			genCase("shared")
+		} else if i%8 == 1 {
+			genCase("ident")
 		} else if i%8 == 5 {
 			genCase("scopes")
 		} else {
